@@ -17,6 +17,7 @@ CONSTANTS
   UPDENDS = {3, 4}
   MAXUPD = 1
   ADDS = {}
+  MAXSTAKE = 0
   SECONDBAD = FALSE
   FAILBUDGET = 99
 VIEW View
